@@ -9,6 +9,20 @@
                                  the same system under the environment "a closer (not in fastmask) returns only when all n
                                  closers have been entered" (`scheduleW`); nobody gives up iff the run reaches the return of
                                  Close                                             → calls=1,1,… done=1,1,… gaveup=0 | stuck
+    closea <n> <errmask> <amask> <bmask> <tmask> <seed>
+                                 the same system with n + (bits 0/1 of tmask) closers: what a closer is wired with (amask: the
+                                 App itself), what it is called (bmask: a name before the App's) and how it is named is
+                                 representation; each of them is a registered closer component
+    closed <n> <errmask> <pairs> <seed>
+                                 the same system: n closers + the closers among the same-printing pairs; a pair split over two
+                                 Apps (orders s/t) = two runs of the system         → calls=… done=… [/ calls=… done=…]
+    closel <n> <errmask> <rounds> <seed>
+                                 the same system; reports = failing closers whose report is complete (`reported`) at the
+                                 moment main returns                                → calls=… done=… reports=<k>
+    gmor <g> <trials>            g callers LoadOrStoreFn(name, own definition) on an empty map, all past the Load before the
+                                 first LoadOrStore (`gmorSched`)                   → defs=<n> listed=<n> kept=<0|1>
+    gscan <n> <trials> <seed>    one scanning round over n+1 components, no scanner failing, and the n load-or-stores of the
+                                 shared definition                                 → errs=0 defs=<n> kept=<0|1>
     cstart <hist> <nops> <sync> <trials> <r>x<m>…
                                  concurrent starts of different Apps after the app.Settings history `hist` (section 4 of
                                  Ioc.Conc): every App evaluates `append(ops, globalOptions...)`, then all of them run their
@@ -49,6 +63,64 @@ def showClose (n : Nat) (s : St) : String :=
 
 def runFanW (cfg : FanCfg) (n mask fast seed : Nat) : St :=
   scheduleW cfg n (bitMask mask) (bitMask fast) (40 * (n + 2)) seed init
+
+/-! fifth round: closers wired with the App, types that print the same, the closing phase under a user logger,
+    load-or-store of a definition -/
+
+def bitsBelow (mask n : Nat) : Bool := mask < 2 ^ n
+
+/-- `closea`: n named closers + one closer per bit 0/1 of tmask; every one of them is a registered closer component -/
+def handleCloseA (n mask amask bmask tmask seed : Nat) : String :=
+  if n > 60 || tmask > 15 || !bitsBelow mask (n + 2) || !bitsBelow amask n || !bitsBelow bmask n then "bad-line" else
+  let n' := n + (if tmask.testBit 0 then 1 else 0) + (if tmask.testBit 1 then 1 else 0)
+  showClose n' (runFan (closeShape Facts.closeSkel).cfg n' mask seed)
+
+/-- a pair token of `closed`: (closers of the pair in the first App, in the second App, split over two Apps) -/
+def dupCount (tok : String) : Option (Nat × Nat × Bool) :=
+  match tok.toList with
+  | [k, o] =>
+    if !("pnlq".toList.contains k) || !("cxst".toList.contains o) then none else
+    if o == 'c' || o == 'x' then some (if k == 'q' then 2 else 1, 0, false)
+    else if k == 'q' then some (1, 1, true)
+    else if o == 's' then some (1, 0, true) else some (0, 1, true)
+  | _ => none
+
+/-- `closed`: which types print the same is a matter of representation; every closer among them is a registered closer
+    component of its App like any other. Two Apps when a pair is split: two runs of the Close system. -/
+def handleCloseD (n mask : Nat) (pairs : String) (seed : Nat) : String :=
+  let toks := if pairs == "-" then [] else pairs.splitOn "."
+  let cs := toks.map dupCount
+  let kinds := toks.map fun t => t.toList.head?
+  if n > 62 || !bitsBelow mask n || cs.any Option.isNone || kinds.eraseDups.length != kinds.length then "bad-line" else
+  let cs := cs.filterMap id
+  let k1 := n + (cs.map (·.1)).foldl (· + ·) 0
+  let k2 := (cs.map (·.2.1)).foldl (· + ·) 0
+  let cfg := (closeShape Facts.closeSkel).cfg
+  let r1 := showClose k1 (runFan cfg k1 mask seed)
+  if cs.any (·.2.2) then r1 ++ " / " ++ showClose k2 (runFan cfg k2 0 (seed + 1)) else r1
+
+/-- `closel`: when Close returns, the user's logger holds the reports of the failing closers that are complete -/
+def handleCloseL (n mask rounds seed : Nat) : String :=
+  if n > 62 || !bitsBelow mask n || rounds < 1 || rounds > 200 then "bad-line" else
+  let s := runFan (closeShape Facts.closeSkel).cfg n mask seed
+  let r := showClose n s
+  if r == "stuck" then r else r ++ " reports=" ++ toString (reported n (bitMask mask) s)
+
+def showGmor (g : Nat) : String :=
+  let r := gmorObs g
+  "defs=" ++ toString r.1 ++ " listed=" ++ toString r.2.1 ++ " kept=" ++ (if r.2.2 then "1" else "0")
+
+def handleGmor (g trials : Nat) : String :=
+  if g < 1 || g > 64 || trials < 1 || trials > 100000 then "bad-line" else showGmor g
+
+/-- `gscan`: one scanning round in which no scanner fails (n components and the scanner), and n load-or-stores of the
+    shared definition -/
+def handleGscan (n trials seed : Nat) : String :=
+  if n < 1 || n > 99 || trials < 1 || trials > 1000 then "bad-line" else
+  let s := runFan (scanShape Facts.scanSkel).cfg (n + 1) 0 seed
+  if s.mainPc != 3 then "stuck" else
+  let r := gmorObs n
+  "errs=" ++ toString s.acc ++ " defs=" ++ toString r.1 ++ " kept=" ++ (if r.2.2 then "1" else "0")
 
 /-! concurrent starts -/
 
@@ -202,6 +274,12 @@ def handle (line : String) : String :=
     if n > 62 then "bad-line" else
     let r := showClose n (runFanW (closeShape Facts.closeSkel).cfg n (natOr mask 0) (natOr fast 0) (natOr seed 0))
     if r == "stuck" then r else r ++ " gaveup=0"
+  | ["closea", n, mask, amask, bmask, tmask, seed] =>
+    handleCloseA (natOr n 99) (natOr mask 0) (natOr amask 0) (natOr bmask 0) (natOr tmask 99) (natOr seed 0)
+  | ["closed", n, mask, pairs, seed] => handleCloseD (natOr n 99) (natOr mask 0) pairs (natOr seed 0)
+  | ["closel", n, mask, rounds, seed] => handleCloseL (natOr n 99) (natOr mask 0) (natOr rounds 0) (natOr seed 0)
+  | ["gmor", g, trials] => handleGmor (natOr g 0) (natOr trials 0)
+  | ["gscan", n, trials, seed] => handleGscan (natOr n 0) (natOr trials 0) (natOr seed 0)
   | "cstart" :: hist :: nops :: sync :: trials :: apps => handleCstart hist nops sync trials apps
   | ["fstart", n, _kinds, seed] =>
     let s := runFan (scanShape Facts.scanSkel).cfg (natOr n 0 + 1) 0 (natOr seed 0)
